@@ -413,6 +413,7 @@ impl<'i> VariableValidator<'i> {
     }
 
     // `self` is a later state of `o`: definitions only move to the left, the three lists only grow
+    #[verifier::opaque]
     pub open spec fn extends(&self, o: &VariableValidator<'i>) -> bool {
         &&& forall|n: &'i str| #[trigger] o.defs().contains_key(n) ==> self.defs().contains_key(n) && start(self.defs()[n]) <= start(o.defs()[n])
         &&& forall|n: &'i str, s: Span| #[trigger] o.iterator_recorded(n, s) ==> self.iterator_recorded(n, s)
@@ -432,34 +433,82 @@ impl<'i> VariableValidator<'i> {
     }
 }
 
-//@ lemma extends_is_a_preorder props C23
-proof fn extends_is_a_preorder<'i>(a: &VariableValidator<'i>, b: &VariableValidator<'i>, c: &VariableValidator<'i>)
-    ensures
-        a.extends(a),
-        c.extends(b) && b.extends(a) ==> c.extends(a),
-{}
+// ---------------------------------------------------------------- lemmas (broadcast in module `callbacks`)
+pub mod lemmas {
+    use vstd::prelude::*;
+    use super::*;
+
+//@ lemma extends_is_reflexive props C23
+    pub broadcast proof fn extends_is_reflexive<'i>(a: &VariableValidator<'i>)
+        ensures #[trigger] a.extends(a)
+    { reveal(VariableValidator::extends); }
 //@ end
 
-// a use that is covered stays covered whatever is recorded later
-//@ lemma use_covered_is_stable props C23
-proof fn use_covered_is_stable<'i>(old_v: &VariableValidator<'i>, new_v: &VariableValidator<'i>, name: &'i str, span: Span)
-    requires new_v.extends(old_v), old_v.use_covered(name, span)
-    ensures new_v.use_covered(name, span)
-{
-    if old_v.defined_before(name, span) {
-        assert(old_v.defs().contains_key(name));
-    } else if old_v.enclosing_iterator(name, span) {
-        let k = choose|k: int| 0 <= k < old_v.iter_defs()[name].len() && span_encloses(#[trigger] old_v.iter_defs()[name][k], span);
-        let s = old_v.iter_defs()[name][k];
-        assert(old_v.iterator_recorded(name, s));
-        assert(new_v.iterator_recorded(name, s));
-        let k2 = choose|k2: int| 0 <= k2 < new_v.iter_defs()[name].len() && new_v.iter_defs()[name][k2] == s;
-        assert(span_encloses(new_v.iter_defs()[name][k2], span));
-    } else {
-        assert(old_v.recorded_use(name, span));
-    }
-}
+//@ lemma extends_is_transitive props C23
+    pub broadcast proof fn extends_is_transitive<'i>(a: &VariableValidator<'i>, b: &VariableValidator<'i>, c: &VariableValidator<'i>)
+        requires #[trigger] c.extends(b), #[trigger] b.extends(a)
+        ensures c.extends(a)
+    { reveal(VariableValidator::extends); }
 //@ end
+
+    // a change of the after-next machine alone is an extension
+//@ lemma same_scoping_state_extends props C23
+    pub broadcast proof fn same_scoping_state_extends<'i>(a: &VariableValidator<'i>, b: &VariableValidator<'i>)
+        requires #[trigger] b.same_scoping_state(a)
+        ensures b.extends(a)
+    { reveal(VariableValidator::extends); }
+//@ end
+
+    // a use that is covered stays covered whatever is recorded later
+//@ lemma use_covered_is_stable props C23
+    pub broadcast proof fn use_covered_is_stable<'i>(old_v: &VariableValidator<'i>, new_v: &VariableValidator<'i>, name: &'i str, span: Span)
+        requires #[trigger] new_v.extends(old_v), #[trigger] old_v.use_covered(name, span)
+        ensures new_v.use_covered(name, span)
+    {
+        reveal(VariableValidator::extends);
+        if old_v.defined_before(name, span) {
+            assert(old_v.defs().contains_key(name));
+        } else if old_v.enclosing_iterator(name, span) {
+            let k = choose|k: int| 0 <= k < old_v.iter_defs()[name].len() && span_encloses(#[trigger] old_v.iter_defs()[name][k], span);
+            let s = old_v.iter_defs()[name][k];
+            assert(old_v.iterator_recorded(name, s));
+            assert(new_v.iterator_recorded(name, s));
+            let k2 = choose|k2: int| 0 <= k2 < new_v.iter_defs()[name].len() && new_v.iter_defs()[name][k2] == s;
+            assert(span_encloses(new_v.iter_defs()[name][k2], span));
+        } else {
+            assert(old_v.recorded_use(name, span));
+        }
+    }
+//@ end
+
+    // so do a recorded definition, a recorded fold iterator and a recorded next
+//@ lemma records_are_stable props C23
+    pub broadcast proof fn def_recorded_is_stable<'i>(old_v: &VariableValidator<'i>, new_v: &VariableValidator<'i>, name: &'i str, span: Span)
+        requires #[trigger] new_v.extends(old_v), #[trigger] old_v.def_recorded(name, span)
+        ensures new_v.def_recorded(name, span)
+    { reveal(VariableValidator::extends); }
+//@ end
+    pub broadcast proof fn iterator_recorded_is_stable<'i>(old_v: &VariableValidator<'i>, new_v: &VariableValidator<'i>, name: &'i str, span: Span)
+        requires #[trigger] new_v.extends(old_v), #[trigger] old_v.iterator_recorded(name, span)
+        ensures new_v.iterator_recorded(name, span)
+    { reveal(VariableValidator::extends); }
+    pub broadcast proof fn next_recorded_is_stable<'i>(old_v: &VariableValidator<'i>, new_v: &VariableValidator<'i>, name: &'i str, span: Span)
+        requires #[trigger] new_v.extends(old_v), #[trigger] old_v.next_recorded(name, span)
+        ensures new_v.next_recorded(name, span)
+    { reveal(VariableValidator::extends); }
+}
+
+// ---------------------------------------------------------------- the callbacks (validator.rs, lifted)
+pub mod callbacks {
+    use vstd::prelude::*;
+    use vstd::std_specs::iter::IteratorSpec;
+    use std::collections::HashMap;
+    use super::*;
+    broadcast use {vstd::std_specs::hash::group_hash_axioms, super::key_model::axiom_str_ref_obeys_key_model, super::key_model::axiom_str_ref_borrows_str,
+        super::key_model::axiom_str_ref_borrows_str_value, super::seq_lemmas::lemma_push_contains,
+        super::lemmas::extends_is_reflexive, super::lemmas::extends_is_transitive, super::lemmas::same_scoping_state_extends,
+        super::lemmas::use_covered_is_stable, super::lemmas::def_recorded_is_stable, super::lemmas::iterator_recorded_is_stable,
+        super::lemmas::next_recorded_is_stable};
 
 impl<'i> VariableValidator<'i> {
 //@ lift crates/air-lib/air-parser/src/parser/validator.rs :: impl<'i> VariableValidator<'i> :: fn new
@@ -470,12 +519,18 @@ impl<'i> VariableValidator<'i> {
 //@ end
 
 // C23: a use counts as resolved only by a definition that starts earlier or by a fold with that iterator that ENCLOSES it
+// rewrite: the closure gets its annotated form (result = what `<` on spans computes), and the receiver of `.any` is let-bound so that
+// ghost code can name the iterator (`it.remaining()[k]` is the k-th element of the vector)
 //@ lift crates/air-lib/air-parser/src/parser/validator.rs :: impl<'i> VariableValidator<'i> :: fn contains_variable
 //@ props C23
 //@ ret r
-//@ rewrite 1 "|s| s < &key_span" => "|s: &Span| -> (b: bool) ensures b == span_before(*s, key_span) { s < &key_span }"
+//@ rewrite 1 "found_spans.iter().any(|s| s < &key_span)" => "{ let mut it = found_spans.iter(); proof { assert(forall|k: int| 0 <= k < found_spans@.len() ==> *it.remaining()[k] == found_spans@[k]); } it.any(|s: &Span| -> (b: bool) ensures b == span_before(*s, key_span) { s < &key_span }) }"
 //@ spec
-        ensures r == self.resolved(key, key_span)
+        ensures
+            // C23: whatever is taken for resolved is in scope in the property's sense
+            r ==> self.resolved(key, key_span),
+            // and nothing in scope is reported
+            self.resolved(key, key_span) ==> r,
 //@ end
 
 //@ lift crates/air-lib/air-parser/src/parser/validator.rs :: impl<'i> VariableValidator<'i> :: fn met_variable_name
@@ -523,6 +578,8 @@ impl<'i> VariableValidator<'i> {
             final(self).extends(old(self)),
 //@ end
 }
+
+} // mod callbacks
 
 } // verus!
 fn main() {}
